@@ -74,7 +74,34 @@ fn run_case(case: &Value) -> Value {
     let calls: Vec<Call<Method>> = (0..n).map(|i| Call::new(Method::Get { id: i as u32 })).collect();
     let mut steps = Vec::new();
     let mut stuck = false;
-    {
+    // receives before the chain (their results are not held: the borrow checker forbids it)
+    let pre = case.get("pre").and_then(|p| p.as_u64()).unwrap_or(0);
+    'pre: for _ in 0..pre {
+        let reads0 = sh.borrow().reads;
+        let fut = conn.receive_reply::<RPB<'_>, RE>();
+        let mut fut = std::pin::pin!(fut);
+        loop {
+            match poll_once(fut.as_mut()) {
+                Poll::Ready(r) => {
+                    let res = match r {
+                        Ok(Ok(_)) => "ok".to_string(),
+                        Ok(Err(_)) => "merr".to_string(),
+                        Err(e) => err_name(&e),
+                    };
+                    steps.push(json!({"res": res, "views": Vec::<String>::new(), "data_reads": sh.borrow().data_reads,
+                                      "reads": sh.borrow().reads - reads0}));
+                    break;
+                }
+                Poll::Pending => {
+                    if sh.borrow().exhausted {
+                        stuck = true;
+                        break 'pre;
+                    }
+                }
+            }
+        }
+    }
+    if !stuck {
         let mut chain = conn.chain_call::<Method, RPB<'_>, RE>(&calls[0]).unwrap();
         for c in &calls[1..] {
             chain = chain.append(c).unwrap();
